@@ -38,6 +38,7 @@ import (
 )
 
 const (
+	c34Horizon    = 25 // > longest lock (20) and unbonding period (10)
 	c34TermPeriod = 10
 	c34MainPReps  = 4
 	c34SubPReps   = 2
@@ -247,6 +248,8 @@ type c34Acct struct {
 	deleg      []c34Vote
 	bonds      []c34Vote
 	iscore     *big.Int
+	// the totals the account itself records (used by the voting-power guards)
+	recUnbond, recBond, recDeleg *big.Int
 }
 
 func (a *c34Acct) sumUnstake() *big.Int {
@@ -288,6 +291,8 @@ type c34Obs struct {
 	acct                              []c34Acct
 	preps                             []c34Prep
 	foreign                           string // a vote / P-Rep outside the closed universe (harness error)
+	// timers registered for the heights height+1 .. height+c34Horizon: height -> universe indices
+	unstakeTimers, unbondTimers map[int64][]int
 }
 
 func (w *c34World) observe(sim *simulatorImpl) *c34Obs {
@@ -319,6 +324,9 @@ func (w *c34World) observe(sim *simulatorImpl) *c34Obs {
 			continue
 		}
 		a.stake.Set(as.Stake())
+		a.recUnbond = new(big.Int).Set(as.Unbond())
+		a.recBond = new(big.Int).Set(as.Bond())
+		a.recDeleg = new(big.Int).Set(as.Delegating())
 		for _, u := range as.UnStakes() {
 			a.unstakes = append(a.unstakes, c34Lock{new(big.Int).Set(u.GetValue()), u.GetExpire(), -1})
 		}
@@ -330,6 +338,23 @@ func (w *c34World) observe(sim *simulatorImpl) *c34Obs {
 		}
 		for _, b := range as.Bonds() {
 			a.bonds = append(a.bonds, c34Vote{find(b.To()), new(big.Int).Set(b.Amount())})
+		}
+	}
+	o.unstakeTimers, o.unbondTimers = map[int64][]int{}, map[int64][]int{}
+	for h := o.height + 1; h <= o.height+c34Horizon; h++ {
+		if ts := es.State.GetUnstakingTimerSnapshot(h); ts != nil {
+			for it := ts.Iterator(); it.Has(); it.Next() {
+				if a, ok := it.Get(); ok {
+					o.unstakeTimers[h] = append(o.unstakeTimers[h], find(a))
+				}
+			}
+		}
+		if ts := es.State.GetUnbondingTimerSnapshot(h); ts != nil {
+			for it := ts.Iterator(); it.Has(); it.Next() {
+				if a, ok := it.Get(); ok {
+					o.unbondTimers[h] = append(o.unbondTimers[h], find(a))
+				}
+			}
 		}
 	}
 	for _, p := range es.State.GetPReps(false) {
@@ -374,6 +399,8 @@ func c34Alphabet() []c34Op {
 		c34Op{Name: "U.setDelegation(p0:1,p1:1)", Kind: c34OpDelegate, Who: 0, Votes: [][2]int{{0, 1}, {1, 1}}},
 		c34Op{Name: "U.setBond()", Kind: c34OpBond, Who: 0},
 		c34Op{Name: "U.setBond(p0:1)", Kind: c34OpBond, Who: 0, Votes: [][2]int{{0, 1}}},
+		c34Op{Name: "U.setBond(p0:2)", Kind: c34OpBond, Who: 0, Votes: [][2]int{{0, 2}}},
+		c34Op{Name: "U.setBond(p1:2)", Kind: c34OpBond, Who: 0, Votes: [][2]int{{1, 2}}},
 		c34Op{Name: "U.claimIScore()", Kind: c34OpClaim, Who: 0},
 		c34Op{Name: "U.registerPRep()", Kind: c34OpRegister, Who: 0},
 		c34Op{Name: "U.unregisterPRep()", Kind: c34OpUnregister, Who: 0},
@@ -829,6 +856,92 @@ func (w *c34World) check(pre, post *c34Obs, op *c34Op, ok bool, who int, st *c34
 				st.unstakePaid++
 			}
 		}
+		// the totals the account records must be the sums of its lists
+		if b.recUnbond != nil {
+			if b.recUnbond.Cmp(b.sumUnbond()) != 0 {
+				bad("account-unbond-total!=sum-of-unbond-entries", "%s records unbonding %s, entries %s", name, b.recUnbond, c34FmtLocks(b.unbonds))
+			}
+			if b.recBond.Cmp(c34SumVotes(b.bonds)) != 0 {
+				bad("account-bond-total!=sum-of-bonds", "%s records bonded %s, bonds sum %s", name, b.recBond, c34SumVotes(b.bonds))
+			}
+			if b.recDeleg.Cmp(c34SumVotes(b.deleg)) != 0 {
+				bad("account-delegation-total!=sum-of-delegations", "%s records delegated %s, delegations sum %s", name, b.recDeleg, c34SumVotes(b.deleg))
+			}
+		}
+		// unbond entries change only by expiry, by a successful setBond of the owner, or by a slash
+		bondTx := op != nil && ok && i == who && op.Kind == c34OpBond
+		var ubRemaining []c34Lock
+		ubExpiring := false
+		for _, u := range a.unbonds {
+			if u.Expire == h {
+				ubExpiring = true
+			} else {
+				ubRemaining = append(ubRemaining, u)
+			}
+		}
+		if !bondTx && !slashOp {
+			if !c34LocksEqual(b.unbonds, ubRemaining) {
+				what := "without-setBond"
+				if op != nil && !ok && i == who {
+					what = "by-a-failed-transaction"
+				}
+				bad("unbond-list-changed-"+what, "%s unbonds %s -> %s", name, c34FmtLocks(a.unbonds), c34FmtLocks(b.unbonds))
+			}
+		}
+		if bondTx && !ubExpiring {
+			// lowering a bond by x moves x into the unbond of that P-Rep, raising it consumes that unbond first
+			newBond := map[int]*big.Int{}
+			for _, v := range op.Votes {
+				newBond[v[0]] = c34Icx(int64(v[1]))
+			}
+			tot := map[int]*big.Int{}
+			addTo := func(m map[int]*big.Int, k int, v *big.Int) {
+				if m[k] == nil {
+					m[k] = new(big.Int)
+				}
+				m[k].Add(m[k], v)
+			}
+			preUb, postUb := map[int]*big.Int{}, map[int]*big.Int{}
+			for _, x := range a.bonds {
+				addTo(tot, x.To, x.Amt)
+			}
+			for _, x := range a.unbonds {
+				addTo(tot, x.To, x.Value)
+				addTo(preUb, x.To, x.Value)
+			}
+			for _, x := range b.unbonds {
+				addTo(postUb, x.To, x.Value)
+				if tot[x.To] == nil {
+					tot[x.To] = new(big.Int)
+				}
+			}
+			for pr, t := range tot {
+				nb := newBond[pr]
+				if nb == nil {
+					nb = zero
+				}
+				want := new(big.Int).Sub(t, nb)
+				if want.Sign() < 0 {
+					want = zero
+				}
+				got := postUb[pr]
+				if got == nil {
+					got = zero
+				}
+				if got.Cmp(want) != 0 {
+					bad("unbonding!=bond+unbond-before-minus-new-bond", "%s -> %s: unbonding %s after %s, expected %s", name, w.names[pr], got, op.Name, want)
+				}
+				was := preUb[pr]
+				if was == nil {
+					was = zero
+				}
+				for _, x := range b.unbonds {
+					if x.To == pr && got.Cmp(was) > 0 && x.Expire != h+c34UnbondMul*c34TermPeriod {
+						bad("new-unbond-not-locked-for-unbonding-period", "%s -> %s: unbond %s@%d created at %d", name, w.names[pr], x.Value, x.Expire, h)
+					}
+				}
+			}
+		}
 		// a transaction that failed or does not concern votes leaves the votes alone
 		voteTx := op != nil && ok && i == who && (op.Kind == c34OpDelegate || op.Kind == c34OpBond)
 		if !voteTx && !slashOp {
@@ -850,6 +963,52 @@ func (w *c34World) check(pre, post *c34Obs, op *c34Op, ok bool, who int, st *c34
 			}
 		}
 	}
+	// every pending unstake / unbond has its timer at its expiry height and every timer has an entry
+	type hk struct {
+		h int64
+		a int
+	}
+	timerCheck := func(kind string, timers map[int64][]int, locks func(a *c34Acct) []c34Lock) {
+		need := map[hk]bool{}
+		for i := range post.acct {
+			for _, l := range locks(&post.acct[i]) {
+				if l.Expire > h+c34Horizon {
+					bad(kind+"-expiry-beyond-longest-lock", "%s has %s %s@%d", w.names[i], kind, l.Value, l.Expire)
+				} else if l.Expire > h {
+					need[hk{l.Expire, i}] = true
+				}
+			}
+		}
+		have := map[hk]bool{}
+		for th, as := range timers {
+			for _, a := range as {
+				have[hk{th, a}] = true
+			}
+		}
+		var msgs []string
+		for k := range need {
+			if !have[k] {
+				msgs = append(msgs, fmt.Sprintf("%s-without-timer|%s has a pending %s expiring at %d but is not in the timer of that height", kind, w.names[k.a], kind, k.h))
+			}
+		}
+		for k := range have {
+			if !need[k] {
+				nm := "?"
+				if k.a >= 0 {
+					nm = w.names[k.a]
+				}
+				msgs = append(msgs, fmt.Sprintf("%s-timer-without-entry|%s is in the %s timer of height %d but has no %s expiring then", kind, nm, kind, k.h, kind))
+			}
+		}
+		sort.Strings(msgs)
+		for _, m := range msgs {
+			p := strings.SplitN(m, "|", 2)
+			bad(p[0], "%s", p[1])
+		}
+	}
+	timerCheck("unstake", post.unstakeTimers, func(a *c34Acct) []c34Lock { return a.unstakes })
+	timerCheck("unbond", post.unbondTimers, func(a *c34Acct) []c34Lock { return a.unbonds })
+
 	if slashOp {
 		extSupply.Sub(extSupply, slashedSum)
 	}
@@ -955,7 +1114,7 @@ func TestVerifC34(t *testing.T) {
 	log.GlobalLogger().SetLevel(log.FatalLevel)
 	log.GlobalLogger().SetConsoleLevel(log.FatalLevel)
 	r := ev.Start(t, "C34", "model_checking")
-	r.Rule("state = (world state hash, validator hash, extension hashes, height) of the real simulator; transition = one operation of the 22-op alphabet " +
+	r.Rule("state = (world state hash, validator hash, extension hashes, height) of the real simulator; transition = one operation of the 24-op alphabet " +
 		"(1 block, or the blocks up to the term end / next timer expiry), every block checked; BFS with exact-hash dedup up to the depth bound from each base state; " +
 		"non-trivial = distinct reached state")
 	r.Assume("closed universe: 6 P-Reps, 6 bonders, 4 background delegators, users U and V, treasury, system, governance, 4 node addresses; the supply equation is asserted on the base state",
@@ -1042,13 +1201,14 @@ func TestVerifC34(t *testing.T) {
 		{"B2-pending-unstakes", []string{"U.setStake(3)", "go(1)", "U.setStake(2)", "goToTermEnd", "U.setStake(1)", "V.setStake(2)", "V.setStake(0)"}, 0},
 		{"B3-slashed-bonder", []string{"U.setStake(3)", "U.setBond(p0:1)", "U.setDelegation(p0:1,p1:1)", "gov.disqualifyPRep(p0)"}, 0},
 		{"B4-slashed-bonder-with-pending-unbond", []string{"U.setStake(3)", "U.setBond(p0:1)", "U.setBond()", "gov.disqualifyPRep(p0)"}, 0},
+		{"B5-pending-unbond-and-one-free-icx", []string{"U.setStake(3)", "U.setBond(p0:2)", "go(1)", "U.setBond(p0:1)"}, 0},
 	}
 	// schedule: (base index, depth to reach). Thorough first repeats the quick bounds for every
 	// base and then deepens, so that a time-capped run still covers every base.
 	type step struct{ base, depth int }
-	sched := []step{{0, 4}, {1, 3}, {2, 3}, {3, 3}, {4, 3}}
+	sched := []step{{0, 4}, {1, 3}, {2, 3}, {3, 3}, {4, 3}, {5, 3}}
 	if r.Thorough() {
-		sched = append(sched, step{1, 4}, step{2, 4}, step{3, 4}, step{4, 4}, step{0, 5}, step{1, 5}, step{2, 5}, step{3, 5}, step{4, 5})
+		sched = append(sched, step{1, 4}, step{2, 4}, step{3, 4}, step{4, 4}, step{5, 4}, step{0, 5}, step{5, 5}, step{1, 5}, step{2, 5}, step{3, 5}, step{4, 5})
 	}
 	target := make([]int, len(bases))
 	for _, s := range sched {
